@@ -68,7 +68,7 @@ def _spec_hash(module="MC_Doc"):
     return h
 
 
-def _cached_tlc(tag, cfg, module="MC_Doc", keep=None, **kw):
+def _cached_tlc(tag, cfg, module="MC_Doc", keep=None, project=None, **kw):
     """TLC's enumeration does not depend on the repository: cache exports by spec+cfg hash.
     Lines are streamed to the cache file; `keep(obj)` (optional) decides which exported states
     are retained for replay (TLC still evaluates its invariants on every state)."""
@@ -81,7 +81,7 @@ def _cached_tlc(tag, cfg, module="MC_Doc", keep=None, **kw):
     if os.path.exists(path) and not os.environ.get("VERIF_NOCACHE"):
         with gzip.open(path, "rt") as fh:
             meta = json.loads(fh.readline())
-            lines = [json.loads(l) for l in fh]
+            lines = [project(json.loads(l)) if project else json.loads(l) for l in fh]
         meta["cached"] = True
         return lines, meta
     os.makedirs(CACHE, exist_ok=True)
@@ -92,8 +92,8 @@ def _cached_tlc(tag, cfg, module="MC_Doc", keep=None, **kw):
         def sink(obj):
             counts["exported"] += 1
             if keep is None or keep(obj):
-                kept.append(obj)
                 fh.write(json.dumps(obj) + "\n")
+                kept.append(project(obj) if project else obj)
         res = run_tlc(module, cfg, coverage=False, line_sink=sink, **kw)
     if not res.ok:
         os.unlink(tmp + ".body")
@@ -125,9 +125,36 @@ def keep_flagged_or_sampled(obj):
     return int(hashlib.sha1(json.dumps(obj["doc"], sort_keys=True).encode()).hexdigest()[:8], 16) % 8 == 0
 
 
-def stage1(tier, uns=False):
+NEEDED = {
+    "C01": ("doc", "size", "depth", "parse", "uns", "allowed", "calls", "m01"),
+    "C04": ("doc", "size", "depth", "parse", "uns", "calls", "m04"),
+    "C05": ("doc", "size", "depth", "parse", "uns", "calls", "np", "dobs", "dconv", "edef", "m05", "m05w", "m05np"),
+    "C10": ("doc", "size", "depth", "parse", "uns", "calls", "np", "m10"),
+    "C20": ("doc", "size", "depth", "parse", "uns", "strip", "stripParse", "m20"),
+    "ser": ("doc", "size", "depth", "parse", "uns", "elem", "names", "allowed"),
+    "doc": ("doc", "size", "depth", "parse", "uns"),
+}
+
+
+def _projector(pid):
+    keys = NEEDED.get(pid)
+    if not keys:
+        return None
+    kinds_only = pid in ("C01", "C10")
+
+    def proj(obj):
+        out = {k: obj[k] for k in keys if k in obj}
+        if kinds_only and "calls" in out:
+            out["calls"] = [{"kind": c["kind"], "out": {"k": "np"}} for c in out["calls"]]
+        return out
+    return proj
+
+
+def stage1(tier, uns=False, pid=None):
+    """pid: keep in memory only the exported fields that property's check reads"""
     t = TIERS[tier]
-    states, meta = _cached_tlc("doc-bfs", _cfg(t["bfs"], uns),
+    _proj = _projector(pid)
+    states, meta = _cached_tlc("doc-bfs", _cfg(t["bfs"], uns), project=_proj,
                                keep=keep_flagged_or_sampled if tier == "thorough" else None)
     info = dict(bfs=dict(consts=t["bfs"], **meta))
     seen = set()
@@ -140,7 +167,7 @@ def stage1(tier, uns=False):
             out.append(s)
     if t.get("seed"):
         seed_states, smeta = _cached_tlc(
-            "doc-seed", _cfg(t["seed"], uns, "SeedSpec", t["seed_levels"]),
+            "doc-seed", _cfg(t["seed"], uns, "SeedSpec", t["seed_levels"]), project=_proj,
             keep=keep_seed_sampled if tier == "thorough" else None)
         n0 = len(out)
         for s in seed_states:
@@ -154,7 +181,7 @@ def stage1(tier, uns=False):
     if t.get("sim"):
         sim_states, smeta = _cached_tlc(
             "doc-sim", _cfg(t["sim"], uns, "SimSpec"), simulate=f"num={t['sim_num']}",
-            depth=t["sim_depth"], seed=SEED + 1, workers=t["sim_workers"],
+            depth=t["sim_depth"], seed=SEED + 1, workers=t["sim_workers"], project=_proj,
             keep=keep_seed_sampled if tier == "thorough" else None)
         n0 = len(out)
         for s in sim_states:
